@@ -59,6 +59,15 @@ class Layout:
             self.user_text = self.gen_text("user")
             os.makedirs(os.path.join(self.home, ".dippy"))
             open(os.path.join(self.home, ".dippy", "config"), "w").write(self.user_text)
+        # permission bits of the configuration files (what umask 002 / 000 / 077 leave behind): a readable file is a layer
+        # whatever its mode
+        self.modes = {}
+        cands = [p for p in self.texts] + ([os.path.join(self.home, ".dippy", "config")] if self.user_text is not None else [])
+        for pth in cands:
+            if r.chance(0.5):
+                mode = r.pick([0o664, 0o666, 0o660, 0o600, 0o444, 0o640, 0o755, 0o604, 0o622])
+                os.chmod(pth, mode)  # follows symlinks: a linked .dippy gets the bits on its target
+                self.modes[os.path.relpath(pth, self.root)] = oct(mode)
         # env layer
         self.env_text = None
         self.env_value = None
